@@ -302,6 +302,31 @@ func runC14(c *fw.Ctx) {
 			}
 		}
 	}
+	// an error on line L (around powers of ten) of a longer file, with lines before and after it
+	for li, L := range []int{0, 1, 8, 9, 10, 11, 98, 99, 100, 101, 998, 999, 1000, 1001} {
+		id := "errline/" + itoa(L)
+		if !c.Want(4_500_000+li, id) {
+			continue
+		}
+		for _, after := range []int{0, 1, 3} {
+			var b strings.Builder
+			for i := 0; i < L; i++ {
+				b.WriteString("send [USD 10] (source = @a destination = @b)\n")
+			}
+			b.WriteString(c.Rng(id).Pick("send [USD", "send [USD 10] (source = destination = @b)", "@", "vars {", "send [USD 1] (source = @a destination = @b) )") + "\n")
+			for i := 0; i < after; i++ {
+				b.WriteString("send [USD 10] (source = @a destination = @b)\n")
+			}
+			t := b.String()
+			if after == 3 {
+				t = strings.TrimSuffix(t, "\n")
+			}
+			c.Count("error_line_texts", 1)
+			if !checkText(c, t, "error-at-line", false) {
+				return
+			}
+		}
+	}
 	for _, stmts := range []int{200, 800, 1400} {
 		id := "long/" + itoa(stmts)
 		if !c.Want(5_000_000+stmts, id) {
